@@ -331,6 +331,9 @@ def _run(chk: Check):
     rule_z4(chk, ix)
     rule_u2(chk)
     rule_u3(chk, ix)
+    from .. import typed
+    # errors "at a node" report that node's span: line and column of each end come from one object, start before end
+    typed.run().feed(chk, {"A5-loc-key": "A5-loc-key", "A5-loc-pair": "A5-loc-pair", "A5-loc-order": "A5-loc-order", "S4-location": "S4-location"})
     from .c08 import rule_l1, rule_l5
     rule_l5(chk, ix)
     rule_l1(chk, ix)   # error positions are token positions
